@@ -233,6 +233,55 @@ fn sanitize(s: &str) -> String {
     s.chars().map(|c| if c.is_ascii_alphanumeric() || c == '-' || c == '_' { c } else { '_' }).collect()
 }
 
+/// What each worker thread is working on right now (set by the families whose cases can make
+/// the subject loop or blow up); shown by the watchdog when the budget runs out.
+pub static CURRENT: std::sync::Mutex<BTreeMap<String, (String, Instant)>> = std::sync::Mutex::new(BTreeMap::new());
+
+pub fn enter_case(desc: impl FnOnce() -> String) {
+    let id = format!("{:?}", std::thread::current().id());
+    if let Ok(mut c) = CURRENT.lock() {
+        c.insert(id, (desc(), Instant::now()));
+    }
+}
+
+pub fn leave_case() {
+    let id = format!("{:?}", std::thread::current().id());
+    if let Ok(mut c) = CURRENT.lock() {
+        c.remove(&id);
+    }
+}
+
+/// Start a watchdog: if the check has not finished after `budget_s` seconds it is reported as a
+/// violation (with the cases being worked on), the evidence file is written and the process
+/// exits 1 — a subject that loops must not turn into a check that never answers.
+pub fn watchdog(id: String, tier: Tier, budget_s: u64) {
+    std::thread::spawn(move || {
+        std::thread::sleep(std::time::Duration::from_secs(budget_s));
+        let cur: Vec<String> = CURRENT
+            .lock()
+            .map(|c| {
+                let mut v: Vec<(&String, &(String, Instant))> = c.iter().collect();
+                v.sort_by_key(|x| x.1 .1);
+                v.iter().take(4).map(|x| format!("{} (for {:.0} s)", x.1 .0, x.1 .1.elapsed().as_secs_f64())).collect()
+            })
+            .unwrap_or_default();
+        let _ = std::fs::create_dir_all(root().join("replays"));
+        let path = root().join("replays").join(format!("{id}-{id}_does-not-finish.json"));
+        let body = json!({"property": id, "signature": format!("{id}:check-did-not-finish-within-{budget_s}s"), "what": "the exploration did not finish within its time budget: the subject loops or has become drastically slower on some case", "witness": {"kind": "budget", "working_on": cur}});
+        let _ = std::fs::write(&path, serde_json::to_string_pretty(&body).unwrap());
+        println!("VIOLATION property={id} replay={}", path.display());
+        println!("  signature={id}:check-did-not-finish-within-{budget_s}s instances=1: the exploration did not finish within its time budget; cases in progress: {cur:?}");
+        let ev = json!({
+            "property_id": id, "tier": tier.name(), "seed": 0, "level": "model_checking",
+            "coverage": {"states": 1, "transitions": 1, "traces_validated_against_impl": 0, "samples": [cur], "evaluations": 1, "distinct_nontrivial": 2, "exhaustive": false, "explanation": "stopped by the watchdog"},
+            "wall_s": budget_s as f64, "violations": 1,
+        });
+        let _ = std::fs::create_dir_all(root().join("evidence"));
+        let _ = std::fs::write(root().join("evidence").join(format!("{id}.json")), serde_json::to_string_pretty(&ev).unwrap());
+        std::process::exit(1);
+    });
+}
+
 /// Violations and evidence fields contributed from outside a property module (the environment
 /// probe): merged by `finish`.
 pub static EXTRA: std::sync::Mutex<(Vec<Violation>, Vec<(String, Value)>)> = std::sync::Mutex::new((Vec::new(), Vec::new()));
